@@ -147,6 +147,197 @@ def huge_depth_cases():
             dict(kind='depth/huge', x=b'd1:a' * 50000, depth=50000, modelled=False)]
 
 
+# ------------------------------------------------------------------- hostile values in every field
+# (round 2) every check validate() or a getter makes must be reached by values of every decoded type
+# and by "hostile" text: non-ASCII letters, full-width / Arabic-Indic / superscript digits, NUL,
+# newlines, bidi and BOM characters, astral characters, empty, whitespace, very long, path-like,
+# URL-like with bad ports / hosts, and near misses of an MD5 digest.
+
+MD5 = 'd41d8cd98f00b204e9800998ecf8427e'
+HOSTILE_TEXT = [
+    '', ' ', '  x ', '\t', '\n', 'a\nb', '\r\n', '\x00', 'a\x00b', '\x7f', '\x85', '\u2028',
+    '\xe4' * 32, MD5[:31] + '\xe9', '\uff10' * 32, MD5, MD5 + '\n',
+    '\uff11', '\u0661\u0662\u0663', '\xb2', '1', '0', '-1', '1e3', 'True',
+    '.', '..', '/', 'a/b', '/abs', '../x', '\\', 'a\\b', 'con', '~',
+    '\u202e', '\ufeff', '\u200b', '\u0130', '\u017f', '\ud7ff', '\ue000', '\uffff', '\U0001f600', '\U0010ffff',
+    'http://a.b/c', 'http://\xe4.b/c', ' http://a/', 'http://a:99999/', 'x' * 300, 'x' * 5000,
+]
+# near misses of an MD5 digest: for the md5sum fields (and `name` as a control)
+HOSTILE_MD5 = [MD5[:31] + '\uff11', '\u0661' * 32, MD5[:16] + '\xb2' + MD5[17:], MD5.upper(), MD5 + '\n\n', '\n' + MD5, MD5 + ' ',
+               MD5 + '\x00', MD5[:31], MD5 + '0', MD5[:31] + 'g', MD5[:31] + '\u0130', 'K' * 32, '\uff21' * 32, '0x' + MD5[:30],
+               '-' + MD5[:31], '+' + MD5[:31], ' ' + MD5[:31], MD5[:31] + '_', MD5 + '\r\n', MD5[:31] + '\n', '\U0001d7d8' * 32]
+# URL-like text: for the fields that hold URLs (and `comment` as a control)
+HOSTILE_URL = ['http://\uff41.b/', 'http://a.b:\uff18\uff10/', 'http://a:\xb2/', 'http://a:\u0661/', 'http://a:-1/', 'http://a:/',
+               'http://a:65535/', 'http://a:65536/', 'http://a: 80/', 'http://a:80 /', 'http://a:8_0/', 'http://a:+80/',
+               'http://[::1', 'http://[zz]/', 'http://[::1]:80/', 'http://a]b/', 'http://\u2100/', 'http://\xe4\xdf.\u0130/',
+               'http://a b/', 'http://a/\n', 'http://a\x00/', 'http://a\t/', 'http:', 'http://', '://', 'udp://t:6969',
+               'HTTP://A', 'http://' + 'a' * 300 + '/', 'http://a..b/', 'http://xn--/', 'http://a/%zz', 'http://a/?\U0001f600',
+               '\xe4://a/', 'http\uff1a//a/', 'http://a@b@c/', 'http://:80/', 'http://\u200b/']
+HOSTILE_LONG = ['x' * 70000, '\xe9' * 40000, MD5 * 2000, 'http://a/' + 'b' * 70000]
+HOSTILE_OTHER = [0, 1, -1, 2, 16384, 16385, 2 ** 31, 2 ** 63, 10 ** 30, -10 ** 30,
+                 b'\xff', b'\xc3', b'\xed\xa0\x80', b'a\xffb', MD5.encode()[:31] + b'\xff',
+                 [], [b''], [b'a'], [b'\xff'], [1], [[]], [[b'http://a/']], [[b'\xff']], [[1]], [b'a', [b'b']], [{}],
+                 [MD5.encode()], [b'\xef\xbc\x91'],
+                 {}, {b'a': b'b'}, {b'0': b'x'}, {b'\xff': 1}, {b'length': 1}, {b'a': {b'b': []}}]
+URL_KEYS = (b'announce', b'announce-list', b'url-list', b'httpseeds', b'comment')
+LONG_KEYS = (b'md5sum', b'name', b'path', b'announce', b'comment', b'source', b'pieces')
+
+
+def values_for(path, long=False):
+    """hostile values for the field at `path`: generic text and every decoded type everywhere, MD5 near misses
+    at md5sum, URL-like text where URLs live"""
+    keys = [k for k in path if not isinstance(k, int)]
+    vs = [t.encode('utf8') for t in HOSTILE_TEXT] + list(HOSTILE_OTHER)
+    if keys[-1] in (b'md5sum', b'name'):
+        vs += [t.encode('utf8') for t in HOSTILE_MD5]
+    if keys[0] in URL_KEYS:
+        vs += [t.encode('utf8') for t in HOSTILE_URL]
+    if long and keys[-1] in LONG_KEYS:
+        vs += [t.encode('utf8') for t in HOSTILE_LONG]
+    return vs
+
+
+def hostile_values(long=False):
+    vs = [t.encode('utf8') for t in HOSTILE_TEXT + HOSTILE_MD5 + HOSTILE_URL] + list(HOSTILE_OTHER)
+    if long:
+        vs += [t.encode('utf8') for t in HOSTILE_LONG]
+    return vs
+
+
+def layout(kind, full):
+    """valid base torrents: single-/multi-file, minimal or with every optional field validate() or
+    a getter looks at"""
+    if kind == 'single':
+        info = {b'length': 30000, b'name': b'some file.bin', b'piece length': K16, b'pieces': b'\x01' * 40}
+        if full:
+            info[b'md5sum'] = MD5.encode()
+    else:
+        files = [{b'length': 20000, b'path': [b'a', b'b.txt']}, {b'length': 10000, b'path': [b'c.txt']}]
+        if full:
+            files[0][b'md5sum'] = MD5.encode()
+            files[1][b'md5sum'] = MD5.upper().encode()
+        info = {b'files': files, b'name': b'some dir', b'piece length': K16, b'pieces': b'\x02' * 40}
+    md = {b'info': info}
+    if full:
+        info[b'private'] = 1
+        info[b'source'] = b'src'
+        md.update({b'announce': b'http://tracker.example.org:6881/announce',
+                   b'announce-list': [[b'http://tracker.example.org:6881/announce', b'udp://b.example:1/a'],
+                                      [b'http://c.example/announce']],
+                   b'url-list': [b'http://seed.example/file', b'http://seed2.example/file'],
+                   b'httpseeds': [b'http://hs.example/seed'],
+                   b'comment': b'a comment', b'created by': b'someone 1.0', b'creation date': 1700000000,
+                   b'encoding': b'UTF-8'})
+    return md
+
+
+# key chains (dict keys as bytes, list indexes as int); a missing container on the way is created
+FIELDS_TOP = [(b'announce',), (b'announce-list',), (b'announce-list', 0), (b'announce-list', 0, 0), (b'announce-list', 1, 0),
+              (b'url-list',), (b'url-list', 0), (b'httpseeds',), (b'httpseeds', 0), (b'comment',), (b'created by',),
+              (b'creation date',), (b'encoding',), (b'info',), (b'unknown',)]
+FIELDS_INFO = [(b'info', b'private'), (b'info', b'source'), (b'info', b'name'), (b'info', b'md5sum'),
+               (b'info', b'piece length'), (b'info', b'length'), (b'info', b'pieces'), (b'info', b'files'),
+               (b'info', b'unknown')]
+FIELDS_FILES = [(b'info', b'files', 0), (b'info', b'files', 1), (b'info', b'files', 0, b'md5sum'),
+                (b'info', b'files', 1, b'md5sum'), (b'info', b'files', 0, b'path'), (b'info', b'files', 0, b'path', 0),
+                (b'info', b'files', 1, b'path', 0), (b'info', b'files', 0, b'path', 1), (b'info', b'files', 0, b'length'),
+                (b'info', b'files', 1, b'length'), (b'info', b'files', 0, b'unknown')]
+
+
+def put(md, path, v):
+    """copy of `md` with `v` stored at `path`"""
+    def rec(o, path):
+        k = path[0]
+        if isinstance(k, int):
+            o = list(o) if isinstance(o, list) else []
+            while len(o) <= k:
+                o.append(b'x')
+            o[k] = v if len(path) == 1 else rec(o[k], path[1:])
+            return o
+        o = dict(o) if isinstance(o, dict) else {}
+        o[k] = v if len(path) == 1 else rec(o.get(k), path[1:])
+        return o
+    return rec(md, path)
+
+
+def path_label(path):
+    return '.'.join(str(k) if isinstance(k, int) else k.decode() for k in path)
+
+
+def field_matrix(full_product=False):
+    """every field x every hostile value; layouts single-/multi-file, minimal / with all optional fields:
+    all applicable layouts (`full_product`) or one per (field, value), taken in rotation"""
+    lays = [(k, f, layout(k, f)) for k in ('single', 'multi') for f in (True, False)]
+    out = []
+    for pi, path in enumerate(FIELDS_TOP + FIELDS_INFO + FIELDS_FILES):
+        # `files` next to `length` in a single-file torrent: the full layout is enough
+        app = [l for l in lays if not (path in FIELDS_FILES and l[0] == 'single' and not l[1])]
+        for vi, v in enumerate(values_for(path, long=True)):
+            for kind, full, base in (app if full_product else [app[(pi + vi) % len(app)]]):
+                out.append(dict(kind='field/' + path_label(path), layout=kind + ('-full' if full else '-min'),
+                                x=bstrict.ser(put(base, path, v))))
+    return out
+
+
+def md5_near_misses(r, n):
+    """strings around the MD5 pattern: a digest with 0-2 characters replaced / inserted / deleted by hostile
+    ones, as `md5sum` of a single-file torrent and of a file of a multi-file torrent"""
+    pool = list('0123456789abcdefABCDEFgG \n\x00\t-+_xX') + ['\xe4', '\xe9', '\uff10', '\uff11', '\uff21', '\u0661', '\xb2',
+                                                        '\u0130', '\u017f', '\u212a', '\u2028', '\U0001d7d8', '\r']
+    out = []
+    for _ in range(n):
+        cs = list(MD5 if r.random() < 0.7 else ''.join(r.choice('0123456789abcdefABCDEF') for _ in range(32)))
+        for _ in range(r.choice([0, 1, 1, 1, 2])):
+            i = r.randrange(len(cs) + 1)
+            op = r.random()
+            if op < 0.5 and i < len(cs):
+                cs[i] = r.choice(pool)
+            elif op < 0.8:
+                cs.insert(i, r.choice(pool))
+            elif i < len(cs):
+                del cs[i]
+        v = ''.join(cs).encode('utf8')
+        kind = r.choice(['single', 'multi'])
+        path = (b'info', b'md5sum') if kind == 'single' else (b'info', b'files', r.randrange(2), b'md5sum')
+        out.append(dict(kind='field/md5-near-miss', layout=kind, x=bstrict.ser(put(layout(kind, r.random() < 0.5), path, v))))
+    return out
+
+
+def _value_paths(v, path=()):
+    """paths of all values (leaves and containers) below the top-level dict"""
+    if isinstance(v, dict):
+        for k, x in v.items():
+            yield path + (k,)
+            yield from _value_paths(x, path + (k,))
+    elif isinstance(v, list):
+        for i, x in enumerate(v):
+            yield path + (i,)
+            yield from _value_paths(x, path + (i,))
+
+
+_HOSTILE_POOL = None
+
+
+def hostile_mutation(r, md):
+    """a generated (valid) metainfo with a hostile value at a random place, or a hostile string spliced into the
+    text that is there"""
+    global _HOSTILE_POOL
+    if _HOSTILE_POOL is None:
+        _HOSTILE_POOL = hostile_values()
+    paths = list(_value_paths(md))
+    path = r.choice(paths)
+    v = r.choice(_HOSTILE_POOL)
+    if r.random() < 0.3:
+        # splice into the existing value when that is text
+        o = md
+        for k in path:
+            o = o[k]
+        if isinstance(o, bytes) and isinstance(v, bytes):
+            i = r.randrange(len(o) + 1)
+            v = o[:i] + v[:40] + o[i:]
+    return bstrict.ser(put(md, path, v))
+
+
 def seeded(r, n):
     """fuzz seeded with valid torrents: truncations, bit flips, structure-aware and byte mutations"""
     out = []
@@ -162,8 +353,10 @@ def seeded(r, n):
         md = gen.metainfo(r, opts)
         x = bstrict.ser(md)
         m = r.random()
-        if m < 0.12:
+        if m < 0.05:
             out.append(dict(kind='seed/valid', x=x))
+        elif m < 0.12:
+            out.append(dict(kind='seed/hostile-field', x=hostile_mutation(r, md)))
         elif m < 0.27:
             out.append(dict(kind='seed/truncate', x=x[:r.randrange(len(x))]))
         elif m < 0.42:
@@ -309,6 +502,82 @@ def magnet_fixed():
     return out
 
 
+ESCAPES = ['%', '%%', '%z', '%zz', '%4', '%41', '%e9', '%E9', '%c3%a9', '%c3', '%00', '%0a', '%0A', '%26', '%3D', '%3d', '%2B',
+           '%25', '%2541', '%u00e9', '%ED%A0%80', '%ff%fe', '%ef%bf%bd', '%20', '+', '%e2%80%ae', '%ef%bc%91', '%c2%85',
+           '%f0%9f%98', '%80', '%c0%80', '%e0%80%80', '%7f', '%1', 'a%', '%a', '%g0', '%0g', '% 41', '%+41']
+FIELD_COUNTS = [0, 1, 2, 10, 100, 999, 1000, 1001, 1002, 3000]
+FIELD_COUNTS_THOROUGH = [500, 998, 1003, 2000, 5000, 10000, 20000]
+
+
+def magnet_sizes(thorough=False):
+    """size dimensions of the magnet grammar (round 2): number of `&`-separated fields (counted before blank
+    values are dropped) 0 … several thousand in every shape a field can have, `;` as would-be separator, very
+    long single values, percent-escapes (valid, invalid, non-UTF-8, encoded separators) in every position.
+    Distinct tr/ws values stay <= 1003 (known quadratic time, finding D08h)."""
+    out = []
+    base = 'magnet:?xt=urn:btih:' + H40
+    url = 'http%3A%2F%2Ftracker.example.org%3A6969%2Fannounce'
+
+    def add(shape, n, uri):
+        out.append(dict(kind='magnet/size-' + shape, uri=uri, fields=n))
+
+    counts = FIELD_COUNTS + (FIELD_COUNTS_THOROUGH if thorough else [])
+    for n in counts:
+        add('amp', n, base + '&' * n)
+        add('amp-only', n, 'magnet:?' + '&' * n)
+        add('leading-amp', n, 'magnet:?' + '&' * n + 'xt=' + H40)
+        add('blank-tr', n, base + '&tr=' * n)
+        add('no-equals', n, base + '&tr' * n)
+        add('same-tr', n, base + ('&tr=' + url) * n)
+        add('same-ws', n, base + '&ws=http://seed.example/file' * n)
+        add('bad-tr', n, base + '&tr=not+a+url' * n)
+        add('dn', n, base + '&dn=foo' * n)
+        add('kt', n, base + '&kt=a+b' * n)
+        add('xl', n, base + '&xl=5' * n)
+        add('xt-many', n, 'magnet:?' + '&'.join(['xt=' + H40] * n))
+        add('no-xt', n, 'magnet:?' + '&'.join(['dn=x'] * n))
+        add('semicolon', n, base + ';tr=http://a' * n)
+        add('semicolon-amp', n, base + ';&' * n)
+        add('mixed', n, base + ''.join(('&tr=http://a', '&', '&x_a=1', '&kt=', '&=v', '&k', '&x_b=%41')[i % 7] for i in range(n)))
+        add('x_-same', n, base + '&x_a=1' * n)
+        add('equals-only', n, base + '&=' * n)
+        add('value-only', n, base + '&=v' * n)
+        if n <= 1003:
+            add('distinct-tr', n, base + ''.join('&tr=http://t%d.example/a' % i for i in range(n)))
+            add('distinct-ws', n, base + ''.join('&ws=http://w%d.example/f' % i for i in range(n)))
+        if n <= 5000:
+            add('unknown-distinct', n, base + ''.join('&foo%d=bar' % i for i in range(n)))
+            add('x_-distinct', n, base + ''.join('&x_%d=1' % i for i in range(n)))
+        add('tail-xt', n, 'magnet:?' + 'tr=http://a&' * n + 'xt=' + H40)
+    for ln in ((1000, 4299, 4300, 4301, 20000, 100000) if thorough else (4300, 4301, 100000)):
+        add('long-dn', ln, base + '&dn=' + 'a' * ln)
+        add('long-xt', ln, 'magnet:?xt=' + 'a' * ln)
+        add('long-xt-urn', ln, 'magnet:?xt=urn:btih:' + 'a' * ln)
+        add('long-tr', ln, base + '&tr=http://a/' + 'b' * ln)
+        add('long-tr-host', ln, base + '&tr=http://' + 'b' * ln + '/')
+        add('long-kt', ln, base + '&kt=' + 'a+' * (ln // 2))
+        add('long-xl', ln, base + '&xl=' + '9' * ln)
+        add('long-key', ln, base + '&' + 'k' * ln + '=1')
+        add('long-x_key', ln, base + '&x_' + 'k' * ln + '=1')
+        add('long-pct', ln, base + '&dn=' + '%41' * (ln // 3))
+        add('long-pct-bad', ln, base + '&dn=' + '%e9' * (ln // 3))
+        add('long-pct-tr', ln, base + '&tr=' + url + '%2F' * (ln // 3))
+        add('long-spaces', ln, ' ' * ln + base + '\n' * ln)
+        add('long-scheme', ln, 'm' * ln + ':?xt=' + H40)
+    for e in ESCAPES:
+        for pos in ('xt=' + H40 + '{}', 'xt={}' + H40, 'xt=urn:btih{}' + H40, 'xt=' + H40 + '&dn={}', 'xt=' + H40 + '&dn=a{}b',
+                    'xt=' + H40 + '&xl=1{}', 'xt=' + H40 + '&xl={}', 'xt=' + H40 + '&tr=http://a/{}', 'xt=' + H40 + '&tr=http://a{}/',
+                    'xt=' + H40 + '&tr={}', 'xt=' + H40 + '&ws=http://a/{}', 'xt=' + H40 + '&xs=http://a/{}',
+                    'xt=' + H40 + '&as=http://a/{}', 'xt=' + H40 + '&kt=a{}b', 'xt=' + H40 + '&x_a={}', 'xt=' + H40 + '&x_{}=1',
+                    'xt=' + H40 + '&{}=1', 'xt=' + H40 + '&d{}n=1', 'x{}t=' + H40, '{}xt=' + H40, 'xt=' + H40 + '&tr{}=http://a',
+                    'xt=' + H40 + '{}dn=a', 'xt=' + H40 + '&dn=a{}dn=b', 'xt=' + H40 + '&dn{}a'):
+            out.append(dict(kind='magnet/escape', uri='magnet:?' + pos.format(e)))
+    for key in ('%78t', 'x%74', '%78%74', 'x%5Fa', '%78_a', 'd%6e', 't%72', 'xt%3D' + H40, 'x%00t', 'xt%00', '+xt', 'xt+'):
+        out.append(dict(kind='magnet/escape-key', uri='magnet:?' + key + '=' + H40))
+        out.append(dict(kind='magnet/escape-key', uri=base + '&' + key + '=http://a'))
+    return out
+
+
 PARAM_POOL = ['xt', 'xt', 'dn', 'xl', 'tr', 'tr', 'xs', 'as', 'ws', 'kt', 'x_pe', 'x.pe', 'foo', '', 'XT', 'tr.1']
 CHARS = list('abz09 /:?&=#%+[]@.-_~\n\t\x00') + ['é', 'İ', 'ſ', 'K', '℀', 'ａ', '١',
                                                    ' ', '%5B', '%00', '%ff', '%0a']
@@ -335,6 +604,17 @@ def magnet_random(r, n):
                     v = ''.join(r.choice(CHARS) for _ in range(r.randint(0, 4)))
                 sep = r.choice(['=', '=', '=', '=', '', '=='])
                 parts.append(p + sep + (q(v) if r.random() < 0.7 else v))
+            if r.random() < 0.02:
+                # many fields: a random block repeated so that the count lands around a round number
+                block = [r.choice(['tr=http://a', 'tr=', 'tr', '', 'x_a=1', 'dn=', 'kt=', '=', '=v', 'ws=http://s/f',
+                                   'tr=http%3A%2F%2Fa', 'x_a=' + r.choice(ESCAPES)]) for _ in range(r.randint(1, 3))]
+                total = r.choice([99, 100, 101, 500, 999, 1000, 1001, 1500, 2500]) + r.randint(-1, 1)
+                k = r.randrange(len(parts) + 1)
+                parts[k:k] = (block * (total // len(block) + 1))[:max(0, total - len(parts))]
+            elif r.random() < 0.1 and parts:
+                k = r.randrange(len(parts))
+                i = r.randrange(len(parts[k]) + 1)
+                parts[k] = parts[k][:i] + r.choice(ESCAPES) + parts[k][i:]
             pre = r.choice(['magnet:?', 'magnet:?', 'magnet:?', 'magnet:?', 'magnet:', 'magnet://h/?', 'magnet://[::1]/?',
                             'magnet://[/?', '?', '', 'http://x/?', 'Magnet:?', ' magnet:?', 'magnet:?&', 'magnet:#?',
                             'magnet://℀/?'])
